@@ -4,8 +4,8 @@ from trees import *  # noqa
 from remerkleable.history import get_target_history
 from remerkleable.tree import get_diff, leaf_iter
 
-THEOREMS = ["C18_history", "C18_history_nonempty", "C18_diff_empty", "C18_diff_sound", "C18_graft", "C18_leaves"]
-PARTIAL = ["C18_diff_complete_ordered (left-to-right order and minimality of the reported pairs) is covered by the correspondence (exact pair lists) and by C18_graft, not by a separate theorem"]
+THEOREMS = ["C18_history", "C18_history_nonempty", "C18_diff_empty", "C18_diff_sound", "C18_graft", "C18_leaves", "C18_diff_exact", "C18_diff_left_to_right", "C18_diff_exact_inj"]
+PARTIAL = ["the model theorems cover the whole statement: changelog = lookup + drop repeats (C18_history, Hinj), diff empty / sound / exactly the minimal differing pairs, left to right, never nested (C18_diff_exact, C18_diff_left_to_right, C18_diff_exact_inj), graft reproduces the root, leaf iteration; the Python generators are tied by the correspondence (exact pair lists)"]
 ASSUMPTIONS = ["Hinj (collision-freeness of the pair hash) is a premise of C18_history"]
 COQ_IMPORTS = ["RMR.RunC18"]
 COQ_FN = "RunC18.run"
